@@ -60,6 +60,7 @@ class Worker:
         env.update(SAN_ENV)
         env.update(self.env)
         t0 = time.time()
+        self.timed_out = False
         try:
             p = subprocess.run(self.cmd, stdout=subprocess.PIPE, stderr=subprocess.PIPE, env=env,
                                cwd=self.cwd, timeout=self.timeout, input=self.stdin,
@@ -308,10 +309,10 @@ def collect(chk, workers, prop, san_props=None, ok_rcs=(0, 4)):
 
 
 def rerun_hung(chk, workers):
-    for wk in workers:
-        if wk.timed_out or wk.rc == 3:
-            chk.notes.append("re-running %s after watchdog" % (wk.tag,))
-            wk.run()
+    again = [wk for wk in workers if wk.timed_out or wk.rc == 3]
+    for wk in again:
+        chk.notes.append("re-running %s after watchdog" % (wk.tag,))
+    run_pool(again)
 
 
 def generic_replay(chk, path, exe_resolver):
